@@ -278,7 +278,10 @@ def _end_redirects_and_joins(ctx, rep, tier):
                  len(st.body) == 1 and isinstance(st.body[0], ast.Continue)), None)
     if mk is None:
         raise AnalysisError("C17.i: creation of the no-match transition not found in CaseNode._merge")
-    rep.check(not (skip is not None and skip < mk), "C17.i", q, "accepting merged states keep the explicit exclusions of a continuing wildcard",
+    keep = next((st for st in w.body if isinstance(st, ast.If) and ast.unparse(st.test) == "converted_states[processing] in new_dfa.accepting_states" and len(st.body) == 1 and isinstance(st.body[0], ast.If) and
+                 ast.unparse(st.body[0].test) == "DFTransition.Else in actual_else or not any((DFTransition.Else in x.on_values for x in converted_states[processing].transitions))" and
+                 isinstance(st.body[0].body[-1], ast.Continue)), None)
+    rep.check(not (skip is not None and skip < mk) and keep is not None and w.body.index(keep) < mk, "C17.i", q, "accepting merged states keep the explicit exclusions of a continuing wildcard",
               "accepting merged states skip the no-match transition unconditionally: the `{excluded bytes, End}` entry of a wildcard / inverted set that continues there is dropped and its Else covers "
               "End - `greedy case { /a/ -> {} /a./ -> { v = 2; finish FC; } }`: feed(\"a\") then end() runs the second clause (FINISH_FC, v = 2) instead of DONE")
 
